@@ -5,6 +5,8 @@ CONSTANTS
   BackSeq <- MCBackSeq
   MethodExcluded = FALSE
   PurgeEvictsLive = FALSE
+  ExpiresIgnored = FALSE
   MaxOps = 8
+  MaxTimeouts = 1
 VIEW PropView
 INVARIANTS Reach_PinnedAfterRotation
